@@ -172,6 +172,10 @@ func Visited[K comparable, V any](m map[K]V, k K) bool { return false }
 // one function (msg.AsyncHandler); "" otherwise.
 func HandlerName(f any) string { return "" }
 
+// HandlerWrapper: the function a function value was made from when it is not
+// itself a method value ("AsyncHandler$1" for msg.AsyncHandler(h)); "" otherwise.
+func HandlerWrapper(f any) string { return "" }
+
 // FreshInIter: p points to an object allocated during the current loop
 // iteration (so it is shared with no earlier iteration).
 func FreshInIter(p any) bool { return false }
